@@ -71,8 +71,11 @@ def column(draw, nrows, idx):
 @st.composite
 def frame_case(draw, max_rows=300):
     nrows = draw(st.one_of(st.integers(2, 40), st.integers(41, max_rows)))
-    style = draw(st.sampled_from(['plain'] * 6 + ['interaction', 'labelish']))
-    ncols = draw(st.integers(2, 6)) if style != 'interaction' else draw(st.integers(5, 6))
+    style = draw(st.sampled_from(['plain'] * 6 + ['interaction', 'labelish', 'wide']))
+    # 'wide': 23-30 columns, i.e. more than 256 column pairs in pairwise mode (more than one block of any pair-blocked scheduling)
+    ncols = draw(st.integers(23, 30)) if style == 'wide' else draw(st.integers(2, 6)) if style != 'interaction' else draw(st.integers(5, 6))
+    if style == 'wide':
+        nrows = min(nrows, 60)
     cols = [draw(column(nrows, i)) for i in range(ncols)]
     case = {'nrows': nrows, 'cols': cols, 'label_pos': draw(st.integers(0, ncols - 1)),
             'pairwise': draw(st.booleans()), 'heuristic': draw(st.sampled_from(HEURISTICS)),
@@ -81,7 +84,12 @@ def frame_case(draw, max_rows=300):
             # row labels of the frame handed to mixed_rank_graph (a frame that was shuffled / sorted / filtered before keeps its labels)
             'index': draw(st.sampled_from(['range', 'range', 'shuffled', 'gaps'])),
             # compute_batch_ranking entry: columns whose values are all numbers are declared numeric (as described sources do)
-            'declare_numeric': draw(st.booleans())}
+            'declare_numeric': draw(st.booleans()),
+            # --mi_stratified_sampling_ratio below 1 concerns the MI-numba heuristics only (C04); every other heuristic scores all rows
+            'ratio': draw(st.sampled_from([1.0, 1.0, 0.5, 0.3]))}
+    if style == 'wide':
+        case['pairwise'] = True
+        case['heuristic'] = draw(st.sampled_from(['max-value-coverage', 'MI-numba-randomized', 'MI-numba-3mr', 'correlation-Pearson']))
     if style == 'interaction':
         # column names as the tool itself builds them for interaction features ("a AND b"): name-based bookkeeping must not
         # confuse the pairs ('a AND b', 'c') and ('a', 'b AND c'); the four names are always present, the label sits elsewhere
@@ -207,7 +215,12 @@ def oracle(case, rec):
     h = case['heuristic']
     if h == 'AMI' and len(cols[0]) > 400:
         h = 'MI'
-    args = stubs.make_args(heuristic=h, target_ranking_only='False' if case['pairwise'] else 'True')
+    ratio = float(case.get('ratio', 1.0)) if 'numba' not in h else 1.0
+    args = stubs.make_args(heuristic=h, target_ranking_only='False' if case['pairwise'] else 'True', mi_stratified_sampling_ratio=ratio)
+    if ratio < 1.0:
+        rec.cls('sampling-ratio<1-with-non-numba-heuristic')
+    if ncols > 20:
+        rec.cls('>256-column-pairs')
     stubs.reset_globals()
     if case.get('entry') == 'compute_batch_ranking' and len(set(names)) == len(names):
         import logging
